@@ -63,13 +63,15 @@ for k, item in enumerate(job):
                 if "declgen" in o and "fmtdict" in o:
                     w = o.get("wrap", {})
                     a = o.get("ast", {})
-                    if w.get("c") and o.get("_generated") not in ("arg_to_buffer", "arg_to_cfi"):
+                    if w.get("c") and o.get("_generated") not in ("arg_to_cfi",):
                         attrs = a.get("attrs") or {}
                         kind = "ctor" if attrs.get("_constructor") else ("dtor" if attrs.get("_destructor") else
                                                                          ("static" if "static" in (a.get("storage") or []) else ("method" if cls else "function")))
                         nm = (a.get("declarator") or {}).get("name") or cls or ""
                         nodes.append({"cname": o["fmtdict"].get("C_name"), "cxx_name": nm if kind != "ctor" else cls, "kind": kind,
-                                      "params": [pkind(p) for p in (a.get("params") or [])], "generated": o.get("_generated"),
+                                      "params": [pkind(p) for p in (a.get("params") or [])
+                                                 if not str((p.get("declarator") or {}).get("name", "")).startswith(("SHF_", "SHT_"))],
+                                      "generated": o.get("_generated"),
                                       "splicer": bool(o.get("splicer")), "user_pattern": bool(o.get("C_error_pattern") or o.get("fstatements")),
                                       "result": pkind(a)[1]})
                     return
